@@ -296,7 +296,7 @@ func (e *Engine) callByContract(fr *Frame, st *State, ins ssa.Instruction, c *Co
 		env := &SpecEnv{e: e, pre: old, post: st, vars: vars, pkg: pkg, allocBefore: allocBefore}
 		st.assume(env.evalBool(en.E))
 	}
-	if c.Pure && len(c.Ensures) == 0 {
+	if c.Pure {
 		// deterministic function of its scalar arguments
 		var as []*Term
 		for i := range args {
